@@ -1,9 +1,10 @@
 /-
-Bridge between the *generated* `ZV.Gen.aipsw_fit` (translated from `AIPSW.fit` on every run) and the
-hand-written model `ZV.Std.aipsw` that the property theorems are about: on data without a
-frequency-weight column (AIPSW refuses one) they compute the same risk difference and risk ratio.
+Model-side halves of the bridges between the generated fit code (`Gen/Fit.lean`) and the hand-written model:
+the model's `aipsw` / `ipsw` arm written as the plain quotient of sums the generated code computes.  Nothing here
+mentions a generated definition; the halves that do are one module per generated definition
+(`Lemmas/GformulaBridge.lean`, `Lemmas/AipwCalcBridge.lean`, `Props/C16_Gen.lean`), so that a definition the
+translator can no longer produce takes down only the theorems that are about it.
 -/
-import ZepidVerif.Gen.Fit
 import ZepidVerif.Lemmas.Generalize
 namespace ZV.Std
 open ZV
@@ -41,18 +42,6 @@ theorem aipsw_arm_eq (generalize : Bool) (l : List (Row F)) (hw : ∀ r ∈ l, r
     · rw [sumIf_def, ← sumBy_one_length]; apply sumBy_congr; intro r hr
       simp [genTarget, hw r hr]
 
-/-- the generated marginal mean of `TimeFixedGFormula.fit` (no row lost to `dropna`) = the model's `gformula` -/
-theorem gformula_marginal_eq (hasWeights : Bool) (t : Tgt) (l : List (Row F)) (pred : Row F → F) (a : Bool)
-    (hw : hasWeights = false → ∀ r ∈ l, r.w = 1) :
-    Gen.gformula_marginal hasWeights t.str l pred (fun _ => true) = gformula l (fun r _ => pred r) t.mem a := by
-  unfold gformula W
-  cases hasWeights
-  · have hw' := hw rfl
-    cases t <;> simp only [Gen.gformula_marginal, Tgt.str] <;> simp <;> congr 1 <;> rw [sumIf_def] <;>
-      apply sumBy_congr <;> intro r hr <;> cases ha : r.a <;> simp [ha, Tgt.mem, hw' r hr]
-  · cases t <;> simp only [Gen.gformula_marginal, Tgt.str] <;> simp <;> congr 1 <;> rw [sumIf_def] <;>
-      apply sumBy_congr <;> intro r hr <;> cases ha : r.a <;> simp [ha, Tgt.mem]
-
 /-- one arm of the generated `IPSW.fit` = the model's `ipsw` (a Hájek mean over the sampled rows of the arm) -/
 theorem ipsw_arm_eq (l : List (Row F)) (ω : Row F → F) (a : Bool) :
     ipsw l ω a
@@ -61,40 +50,5 @@ theorem ipsw_arm_eq (l : List (Row F)) (ω : Row F → F) (a : Bool) :
   unfold ipsw hajek
   congr 1 <;> rw [sumIf_def] <;> apply sumBy_congr <;> intro r _ <;>
     cases ho : r.obs <;> cases ha : r.a <;> cases a <;> simp [ho, ha, mul_assoc]
-
-/-- the point estimate of the generated `aipw_calculator` (no missing outcome) is the difference / ratio of the
-    model's two pseudo-outcome means -/
-theorem aipw_calc_eq (difference hasWeights : Bool) (nanv : F) (l : List (Row F)) (hobs : ∀ r ∈ l, r.obs = true)
-    (hw : hasWeights = false → ∀ r ∈ l, r.w = 1) (py_a py_n pa1 pa0 : Row F → F) :
-    let Q : Row F → Bool → F := fun r a => if a then py_a r else py_n r
-    (Gen.aipw_calc difference hasWeights nanv l py_a py_n pa1 pa0).1
-      = if difference then aipw1 l Q pa1 pa0 - aipw0 l Q pa1 pa0 else aipw1 l Q pa1 pa0 / aipw0 l Q pa1 pa0 := by
-  intro Q
-  have hy1 : ∀ r, Gen.aipw_y1 r.a r.y (Q r true) (Q r false) (pa1 r) (pa0 r)
-      = (if r.a = true then (r.y - py_a r * (1 - pa1 r)) / pa1 r else py_a r) := by
-    intro r; simp [Gen.aipw_y1, Q]
-  have hy0 : ∀ r, Gen.aipw_y0 r.a r.y (Q r true) (Q r false) (pa1 r) (pa0 r)
-      = (if r.a = false then (r.y - py_n r * (1 - pa0 r)) / pa0 r else py_n r) := by
-    intro r; simp [Gen.aipw_y0, Q]
-  unfold aipw1 aipw0 wmean
-  simp only [hy1, hy0]
-  cases difference <;> cases hasWeights <;>
-    simp only [Gen.aipw_calc, nanmeanBy, Bool.false_eq_true, Bool.true_eq_false, if_false, if_true, reduceIte]
-  · -- ratio, unweighted
-    have hw' := hw rfl
-    simp only [Nat.cast_one, Nat.cast_zero]
-    congr 1 <;> congr 1 <;> apply sumBy_congr <;> intro r hr <;> cases ha : r.a <;> simp [ha, hobs r hr, hw' r hr]
-  · -- ratio, weighted
-    simp only [Nat.cast_one, Nat.cast_zero]
-    congr 1 <;> congr 1 <;> apply sumBy_congr <;> intro r hr <;> cases ha : r.a <;> simp [ha, hobs r hr]
-  · -- difference, unweighted
-    have hw' := hw rfl
-    simp only [Nat.cast_one, Nat.cast_zero]
-    rw [← sub_div, ← sumBy_sub]
-    congr 1 <;> apply sumBy_congr <;> intro r hr <;> cases ha : r.a <;> simp [ha, hobs r hr, hw' r hr]
-  · -- difference, weighted
-    simp only [Nat.cast_one, Nat.cast_zero]
-    rw [← sub_div, ← sumBy_sub]
-    congr 1 <;> apply sumBy_congr <;> intro r hr <;> cases ha : r.a <;> simp [ha, hobs r hr] <;> ring
 
 end ZV.Std
